@@ -11,7 +11,10 @@ use crate::{
     procedures::ExecutionErrorPayload,
     value::Value,
     vm::{
-        runtime::cao_lang_object::{CaoLangObjectBody, ObjectGcGuard},
+        runtime::{
+            cao_lang_object::{CaoLangObjectBody, ObjectGcGuard},
+            cao_lang_table::CaoLangTable,
+        },
         Vm,
     },
 };
@@ -190,6 +193,19 @@ fn guard_value(value: Value) -> Option<ObjectGcGuard> {
     }
 }
 
+/// Copies a table into a new one that only the caller can reach
+fn snapshot<T>(
+    vm: &mut Vm<T>,
+    t: &CaoLangTable,
+) -> Result<ObjectGcGuard, ExecutionErrorPayload> {
+    let mut copy = vm.init_table()?;
+    let table = copy.as_table_mut().unwrap();
+    for (k, v) in t.iter() {
+        table.insert(*k, *v)?;
+    }
+    Ok(copy)
+}
+
 pub fn native_minmax<T, const LESS: bool>(
     vm: &mut Vm<T>,
     iterable: Value,
@@ -200,7 +216,10 @@ pub fn native_minmax<T, const LESS: bool>(
         Value::Object(o) => unsafe {
             match &o.as_ref().body {
                 CaoLangObjectBody::Table(t) => {
-                    let Some(first) = t.iter().next() else {
+                    // the key function may change the table: work on the entries it has now
+                    let entries = snapshot(vm, t)?;
+                    let entries = entries.as_table().unwrap();
+                    let Some(first) = entries.iter().next() else {
                         return Ok(Value::Nil);
                     };
                     vm.stack_push(*first.1)?;
@@ -211,7 +230,7 @@ pub fn native_minmax<T, const LESS: bool>(
                     let mut _max_key_guard = guard_value(max_key);
                     let mut i = 0;
 
-                    for (j, (k, value)) in t.iter().enumerate().skip(1) {
+                    for (j, (k, value)) in entries.iter().enumerate().skip(1) {
                         vm.stack_push(*value)?;
                         vm.stack_push(*k)?;
                         let key = vm.run_function(key_fn)?;
@@ -223,8 +242,8 @@ pub fn native_minmax<T, const LESS: bool>(
                         }
                     }
                     drop(_max_key_guard);
-                    let k = t.nth_key(i);
-                    let v = t.get(&k).copied().unwrap_or(Value::Nil);
+                    let k = entries.nth_key(i);
+                    let v = entries.get(&k).copied().unwrap_or(Value::Nil);
                     let mut result = vm.init_table()?;
                     let t = result.0.as_mut().as_table_mut().unwrap();
                     t.insert(vm.init_string("key")?, k)?;
@@ -254,11 +273,14 @@ pub fn native_sorted<T>(
                 CaoLangObjectBody::Table(t) => {
                     // TODO:
                     // sort in place?
-                    let mut result = Vec::with_capacity(t.len());
+                    // the key function may change the table: work on the entries it has now
+                    let entries = snapshot(vm, t)?;
+                    let entries = entries.as_table().unwrap();
+                    let mut result = Vec::with_capacity(entries.len());
                     // the keys are only held here: guard them against the collections that the
                     // next calls of the key function may start
                     let mut key_guards = Vec::new();
-                    for (k, v) in t.iter() {
+                    for (k, v) in entries.iter() {
                         vm.stack_push(*v)?;
                         vm.stack_push(*k)?;
                         let key = vm.run_function(key_fn)?;
